@@ -238,10 +238,14 @@ def build_test(rs, root, label, obs_mode, N):
         codes[v] = 0 if v in contvars else int(joint[v])
     X = np.tile(xrow, (N, 1))
     X0 = X.copy()
+    fp0 = G.fingerprint(root)
     Y = sample(root, X)
+    fp1 = G.fingerprint(root)
     t = dict(label=label, root=root, tab=tab, dom=dom, scope=scope, width=width, obs=obs, miss=miss, codes=codes,
              xrow=xrow, edges=edges, contvars=contvars, N=N, exact=[])
     # ---- exact clauses on every drawn row
+    if fp1 != fp0:
+        t["exact"].append("sample() changed the circuit it was called on (parameters, ids or node objects differ afterwards)")
     if Y.shape != X.shape:
         t["exact"].append("output shape differs from input shape"); return t
     if not np.array_equal(X, X0, equal_nan=True):
